@@ -712,6 +712,23 @@ class Unit:
                 loops.append({'kind': t.text, 'kw': j, 'body': b, 'in': in_tok})
             j += 1
         rec.loops = [l['kind'] for l in loops]
+        # `opt optloop:N`: loop N exists only in some shapes of the function (e.g. after a repair). When the function has no loop N its
+        # loop clauses, loop hints and r5/r6 options are dropped and recorded (proof aids only: nothing is assumed by dropping them).
+        for o in list(opts):
+            mm = re.match(r'optloop:(\d+)$', o)
+            if not mm:
+                continue
+            n = int(mm.group(1))
+            if n < len(loops):
+                continue
+            opts = [x for x in opts if x not in ('r5:%d' % n, 'r6:%d' % n, 'r6i:%d' % n)]
+            kept = []
+            for c in clauses:
+                if c[0] in ('loop', 'forlabel', 'loopbefore', 'loophead', 'looptail', 'loopend') and re.match(r'%d\s*:' % n, c[1]):
+                    continue
+                kept.append(c)
+            clauses = kept
+            self.hints_dropped.append('%s: optional loop %d is absent on this tree: its loop clauses and hints are dropped' % (rec.selector, n))
         # R6: `for P in &mut E` / `for P in &E`  ->  `E.iter_mut()` / `E.iter()` (this is how std defines IntoIterator for &mut Vec / &Vec)
         for o in opts:
             mm = re.match(r'r6:(\d+)$', o)
